@@ -16,5 +16,5 @@ INIT CInit
 NEXT CNext
 VIEW CView
 CHECK_DEADLOCK FALSE
-INVARIANTS TypeOK BoundOK ForgetSound ExpiryCovers CTypeOK CountsExact CapsHold EntCovers
+INVARIANTS TypeOK BoundOK ForgetSound ExpiryCovers Rested CTypeOK CountsExact CapsHold EntCovers
 PROPERTIES ConnDecisionOK RateFirst DropAtZero BogusInert
